@@ -87,7 +87,7 @@ func oneTrace(b *centrifuge.MemoryMapBroker, rec *recorder, reg *registry, res *
 		at := mid(now).Add(time.Duration(rng.Int63n(int64(tick)*2/5)) - tick/5)
 		time.Sleep(time.Until(at))
 	}
-	late := func() bool { return time.Since(mid(now)) > tick/4 }
+	late := func() bool { return time.Since(mid(now)) > tick/4 } // deadlines stay within [-0.2, +0.25] tick of their boundary
 	takeBc := func() []bcast {
 		h := rec.take(ch)
 		log = append(log, h...)
